@@ -11,6 +11,7 @@ func init() {
 			return []harnessCfg{
 				{Dir: "hostsfile", Func: "VerifC07Free", Opts: o},
 				{Dir: "hostsfile", Func: "VerifC07Shapes", Opts: o},
+				{Dir: "hostsfile", Func: "VerifC07Addrs", Opts: o},
 			}
 		},
 		Bounds: func(thorough bool) map[string]string {
@@ -20,6 +21,7 @@ func init() {
 			}
 			return map[string]string{
 				"free lines": "every ASCII line of length 0.." + n + " (no 'xn--' name label)",
+				"addresses":  "lead from {'', '::ffff:', '::FFFF:', '::', '64:ff9b::', '1::', '0:0:0:0:0:ffff:'} + dotted quad / 'h:h' / 'h' of arbitrary digits + optional '%' and one arbitrary byte, one space, one name of one arbitrary byte; grammar and Marshal/Unmarshal round trip",
 				"shapes":     "ws* addr ws+ name (ws+ name){0..1|2} ws* ('#' byte?)? with ws runs of 1..2 symbolic space/tab bytes, addr in {d.d.d.d, ::b, fe80::1%zone, 1..2|3 arbitrary bytes}, names of 1..2|3 arbitrary ASCII bytes (quick|thorough)",
 				"round trip": "every accepted record of the above is marshalled (real netip.Addr.MarshalText) and re-parsed",
 			}
